@@ -214,7 +214,7 @@ func (cliStream) Execute(c Case) {
 			}
 		}
 	case "validatetool":
-		dir := filepath.Join(os.TempDir(), "cdi-verif-cli-validate")
+		dir := scratchRoot(filepath.Join(os.TempDir(), "cdi-verif-cli-validate"))
 		_ = os.MkdirAll(dir, 0o755)
 		defer os.RemoveAll(dir)
 		sname, _ := c["schema"].(string)
